@@ -13,6 +13,8 @@ ROOT = "VROOT"
 
 # ---- alphabets ---------------------------------------------------------------------------
 LABELS = ["S", "NP", "VP", "PP", "AP", "CS", "CNP", "AVP", "SBAR", "ADJP"]
+LABELS_SPECIAL = ["X&Y", "A<B>", "Q\"", "R'S", "Ü"]
+EDGES_SPECIAL = ["E&", "<", "\""]
 POS = ["NN", "VVFIN", "ART", "ADJA", "APPR", "ADV", "PRELS", "NE"]
 EDGES = ["HD", "NK", "SB", "OA", "MO", "--", "OC", "CJ"]
 MORPH = ["--", "Nom.Sg.Masc", "3.Sg.Pres.Ind", "Akk.Pl"]
@@ -113,8 +115,13 @@ def swarm_knobs(rng, tier="quick", allow=("ascii", "latin1", "wide", "xml", "len
     k["arity"] = rng.choice([2, 3, 4, 6])
     nlab = rng.choice([1, 2, 3, 8])
     k["labels"] = LABELS[:nlab]
+    if "xml" in allow and rng.random() < 0.15:
+        k["labels"] = k["labels"] + [rng.choice(LABELS_SPECIAL[:4])]
+        k["special_labels"] = True
     k["pos"] = POS[:rng.choice([1, 2, 4, 8])]
     k["edges"] = rng.choice([EDGES, ["--"], ["HD", "NK", "--"], ["SB", "OA", "MO"]])
+    if "xml" in allow and rng.random() < 0.1:
+        k["edges"] = k["edges"] + [rng.choice(EDGES_SPECIAL)]
     k["morph"] = MORPH[:rng.choice([1, 2, 4])]
     classes = ["ascii"]
     for c in allow:
